@@ -6,6 +6,82 @@ PURE_OBS = None  # compare every line
 NOT_APPLICABLE = {}
 
 PROPS = {
+    'C02': {
+        'families': [('ep:codec', 2500, 80000), ('ep:utf8', 500, 10000), ('ep:limits', 500, 10000)],
+        'rule': 'well-formed frame sequences with arbitrary fragmentation and interleaved control frames, and the same with a single rule '
+                'violation injected (RSV, reserved opcodes, fragmented / oversized control, stray continuation, nested data frame, wrong '
+                'mask direction, malformed close payload, non-minimal lengths, huge announced lengths), byte garbage; role x accept_unmasked_frames; '
+                'every case is decoded by the one-shot RFC decoder and compared with what the real crate delivered',
+        'assumptions': ['a close reason that is not UTF-8 is reported as Error::Utf8 (class utf8), not as a protocol error; the property text '
+                        'lists "malformed close payload" under protocol errors: read as the 1-byte payload (DESIGN.md section 7)',
+                        'max_message_size = None behaves as usize::MAX in the code; the refinement theorem is stated against those effective limits'],
+        'trusted_base': ['Spec/Rfc6455.lean: the one-shot decoder is the specification (readable in minutes, shares no code with the incremental reader)'],
+        'level_text': 'Kernel-checked refinement: for EVERY inbound byte stream, role, accept_unmasked_frames, limits, pre-read split and segmentation, '
+                      'successive reads deliver exactly the messages of the independent one-shot RFC 6455 decoder and end as it ends '
+                      '(C02_refines_spec_effective); each listed violation is proved to be a protocol error of the specification.',
+        'level_note': 'The first formulation (limits taken literally, None = unlimited) was proved FALSE for streams of 2^64+20 bytes '
+                      '(C05_unlimited_needs_size_bound) and replaced by effective limits / a size hypothesis.',
+    },
+    'C05': {
+        'families': [('ep:codec', 2500, 80000), ('ep:sizes', 300, 5000), ('ep:pipe', 150, 3000)],
+        'rule': 'inbound streams under many segmentations (1-byte, small, large chunks, WouldBlock between segments), every (pre-read, rest) split '
+                'the generator picks, six read-buffer sizes; each case compared with the one-shot decoder of the whole stream',
+        'assumptions': ['the outbound side accepts what it is offered (the property is about how the INBOUND stream is cut); '
+                        'max_write_buffer_size >= 200 so automatic replies fit'],
+        'trusted_base': ['Spec/Rfc6455.lean as specification'],
+        'level_text': 'Kernel-checked for ALL streams, ALL segmentations with WouldBlock anywhere and ALL (pre-read, rest) splits, by induction over '
+                      'the read script: the result of reading equals the one-shot decoding of the concatenated stream, hence is independent of the cut '
+                      '(C05_reads_effective_limits, C05_same_stream_same_result); a blocked read is neutral (C05_wouldblock_neutral); never panics; '
+                      'read_buffer_size does not occur in the model at all (chunk sizes are universally quantified).',
+        'level_note': 'BytesMut capacity policy is not modelled: the harness reports how many bytes each transport read delivered and the theorem '
+                      'covers every such chunking.',
+    },
+    'C15': {
+        'families': [('corpus:hs', 0, 0), ('hs:server', 2500, 60000)],
+        'rule': 'request heads from a grammar: every subset / order / casing of the required headers, near-miss values, duplicates, extra headers up to '
+                'and past the limit, key shapes, methods, versions, bare-LF line ends, byte mutations, trailing bytes, endless heads; every transport '
+                'segmentation with WouldBlock and partial writes; three callback behaviours',
+        'assumptions': ['httparse and http::Uri are external: what they report for the received bytes is an input of the model (taken from the real '
+                        'crates on every case); "nothing following the head" means nothing had been received beyond the head when it completed'],
+        'trusted_base': ['Generated/Handshake.lean (header names, required values, split characters, order of checks, GUID) from the translator; '
+                         'Handshake/Sha1.lean, Base64.lean compared with the sha1 / data-encoding crates'],
+        'level_text': 'Kernel-checked: the server goes on to answer iff the parsed head satisfies exactly the property\'s list (C15_accept_iff); the '
+                      'answer is the 101 with Upgrade, Connection and base64(SHA-1(key ++ GUID)) byte for byte, and GUID + SHA-1 + Base64 reproduce the '
+                      'RFC example (kernel evaluation); name case, header order (headers occurring once) and additional headers are irrelevant; an invalid '
+                      'request never gets a 101; a callback rejection is written in full and reported as an HTTP error.',
+        'level_note': 'Parsing bytes into (method, version, path, headers) is httparse, not tungstenite: modelled as a parameter; the monitor re-decides '
+                      'every real handshake from the parsed view with an independent transcription of the property.',
+    },
+    'C16': {
+        'families': [('corpus:hs', 0, 0), ('hs:client', 2500, 60000)],
+        'rule': 'target URIs (userinfo with and without @ in the password, IPv6, ports, no path, wrong scheme, relative), extra headers, subprotocol '
+                'lists, hand-made requests with missing / duplicated required headers; responses with every element missing or altered, accept value '
+                'with one character changed, subprotocol cases, frames following the head at every segmentation',
+        'assumptions': ['"16 fresh random bytes": the key is an input of the model (partial); the harness checks it decodes to 16 bytes',
+                        'http::Uri parsing is external (its view of scheme / authority / path is an input)'],
+        'trusted_base': ['Generated/Handshake.lean from the translator incl. uriHostAfterLastAt (find vs rfind)'],
+        'level_text': 'Kernel-checked: the request is one GET with each of the five headers exactly once followed by the remaining headers '
+                      '(HeaderMap swap-remove modelled); a URL-built request has the authority without credentials as Host and passes the server\'s '
+                      'own checks with the accept value the client expects; the client accepts iff status 101, Upgrade, Connection, matching accept '
+                      'and the subprotocol condition; bytes after the head become the pre-read buffer of the socket (and by C05 are read independently '
+                      'of where the boundary fell).',
+        'level_note': 'Partial for key randomness. D9 (Host cut at the first @) was found here and fixed.',
+    },
+    'C17': {
+        'families': [('corpus:hs', 0, 0), ('hs:server', 2500, 60000), ('hs:client', 1500, 30000)],
+        'rule': 'segmentations of valid and invalid heads into up to 64+ reads, WouldBlock before any read / write / flush, partial write sizes, '
+                '1-byte drips, heads above 64 KiB, 125 headers',
+        'assumptions': ['httparse is prefix-stable on the head (Partial on every proper prefix): hypothesis HeadOf of the theorem, checked on every '
+                        'generated head by the parsed-view lines; TooManyHeaders is httparse behaviour',
+                        'responses shorter than 400 bytes or scripts long enough (model fuel; see C17_server_schedule_independent)'],
+        'trusted_base': ['Generated/Attack.lean (the four constants and the check) from the translator'],
+        'level_text': 'Kernel-checked: for every sequence of read sizes the guard stops a reading stage within 513 reads and 65536+4096 bytes, accepted '
+                      'prefixes have <= 512 reads, <= 65536 bytes and (beyond 64 reads) an average >= 128 bytes; a WouldBlock round returns the machine '
+                      'unchanged; for every benign schedule (any segmentation of the head, any WouldBlock placement, any partial write sizes) the server '
+                      'handshake is either still interrupted having written a prefix of the right bytes or has ended exactly as the one-shot '
+                      'specification says with exactly its bytes written.',
+        'level_note': 'The client-side schedule independence is covered by correspondence only (same machine code, C17_interrupt_is_identity applies).',
+    },
     'C03': {
         'families': [('corpus:defects', 0, 0), ('ep:close', 2500, 80000), ('ep:mixed', 800, 20000), ('ep:hostile', 500, 20000)],
         'rule': 'interleavings of user calls (read, write of each kind, flush, close) with peer frames (data, ping, close, garbage after '
